@@ -1,6 +1,7 @@
 package corex
 
 import (
+	"fmt"
 	"strings"
 
 	"github.com/mutagen-io/mutagen/pkg/synchronization/core"
@@ -97,10 +98,23 @@ func NoPhantom(t *Triple) bool {
 // `<mode> <A> <alpha> <beta>` lines answered by the canonical plan: it replays
 // or generates the lines, runs the real core.Reconcile, and evaluates oracle
 // (which returns "" or "class=<class> <details>").
-func RunReconcileCases(c *hx.Ctx, gen func(emit func(mode string, anc, alpha, beta *core.Entry)), oracle func(t *Triple, p *Plan) string) {
+func RunReconcileCases(c *hx.Ctx, gen func(emit func(mode string, anc, alpha, beta *core.Entry), raw func(line string)), oracle func(t *Triple, p *Plan) string) {
 	run := func(line string) {
 		var verdict, key string
 		impl := hx.Try(func() string {
+			if rest, ok := strings.CutPrefix(line, "cfvalid "); ok {
+				c.Count("op:cfvalid")
+				cf, err := DecConflict(rest)
+				if err != nil {
+					return "bad-op"
+				}
+				valid := "0"
+				if cf.EnsureValid() == nil {
+					valid = "1"
+					key = "cfvalid"
+				}
+				return valid + "|" + hx.EncConflict(cf.Slim())
+			}
 			t, ok := ParseTriple(strings.Fields(line))
 			if !ok {
 				return "bad-op"
@@ -146,7 +160,32 @@ func RunReconcileCases(c *hx.Ctx, gen func(emit func(mode string, anc, alpha, be
 	}
 	gen(func(mode string, anc, alpha, beta *core.Entry) {
 		run(TripleLine(mode, anc, alpha, beta))
-	})
+	}, run)
+}
+
+// DecConflict parses `path[changes|changes]`.
+func DecConflict(s string) (*core.Conflict, error) {
+	i := strings.IndexByte(s, '[')
+	if i < 0 || !strings.HasSuffix(s, "]") {
+		return nil, fmt.Errorf("bad conflict %q", s)
+	}
+	parts := strings.Split(s[i+1:len(s)-1], "|")
+	if len(parts) != 2 {
+		return nil, fmt.Errorf("bad conflict %q", s)
+	}
+	root, err := hx.DecPath(s[:i])
+	if err != nil {
+		return nil, err
+	}
+	a, err := hx.DecChanges(parts[0])
+	if err != nil {
+		return nil, err
+	}
+	b, err := hx.DecChanges(parts[1])
+	if err != nil {
+		return nil, err
+	}
+	return &core.Conflict{Root: root, AlphaChanges: a, BetaChanges: b}, nil
 }
 
 // First returns the first non-empty verdict, prefixed with its class.
